@@ -170,3 +170,24 @@ fn k_dep_heap_push_then_pop() {
     let b = q.pop_node();
     assert!(a.is_some() && b.is_some() && q.pop_node().is_none(), "T3: two entries remain after push_then_pop");
 }
+
+// ---- T2 conformance (bounded): the REAL ConcurrentOrderedBag over a FixedVec keeps the pre-existing element, places
+// values at the positions written (in any write order) and hands back the positions [0, len) when each was written once.
+#[kani::proof]
+#[kani::unwind(10)]
+fn k_dep_bag_positions() {
+    use orx_concurrent_ordered_bag::ConcurrentOrderedBag;
+    use orx_fixed_vec::FixedVec;
+    use orx_pinned_vec::PinnedVec;
+    let d = any3();
+    let mut fixed: FixedVec<u8> = FixedVec::new(3);
+    fixed.push(d[0]);
+    let bag: ConcurrentOrderedBag<u8, FixedVec<u8>> = fixed.into();
+    assert!(bag.len() == 1, "T2: len() right after conversion is the number of pre-existing elements");
+    // written out of order: position 2 first, then position 1
+    unsafe { bag.set_value(2, d[2]) };
+    unsafe { bag.set_values(1, [d[1]].into_iter()) };
+    let out: FixedVec<u8> = unsafe { bag.into_inner().unwrap_only_if_counts_match() };
+    assert!(out.len() == 3, "T2: all written positions are handed back");
+    assert!(out[0] == d[0] && out[1] == d[1] && out[2] == d[2], "T2: values sit at the positions they were written to; existing contents untouched");
+}
